@@ -410,6 +410,8 @@ class Interp:
         e1, e2 = env.copy(), env.copy()
         self._refine(c, True, e1)
         self._refine(c, False, e2)
+        e1["@bb"] = len(e1.get("@conds", []))
+        e2["@bb"] = len(e2.get("@conds", []))
         self.block(st.body, e1, fi, rets)
         self.block(st.orelse, e2, fi, rets)
         self._merge(env, [(e1, c), (e2, ("not", c))], gated=c)
@@ -483,7 +485,8 @@ class Interp:
                     acc = _join_container(acc, v)
                 env[k] = acc
             elif gated is not None and len(live) == 2 and len(branches) == 2:
-                env[k] = ("gphi", gated, live[0][0].get(k, BOT), live[1][0].get(k, BOT))
+                env[k] = ("gphi", gated, self._narrowed(live[0][0], k, env),
+                          self._narrowed(live[1][0], k, env))
             else:
                 env[k] = phi(*vals)
         for e, _ in branches:
@@ -500,6 +503,19 @@ class Interp:
                     env[k] = v
         else:
             env["@conds"] = env.get("@conds", [])
+
+    @staticmethod
+    def _narrowed(e, k, env):
+        """Inside a loop body, a branch whose nested alternative left the
+        iteration (`else: continue`) goes on only under the nested test that
+        stayed: a value it assigns keeps that selecting condition."""
+        v = e.get(k, BOT)
+        if e.get("@loopconds") is None or "@bb" not in e or v == env.get(k, BOT):
+            return v
+        extra = tuple(c for c in e.get("@conds", [])[e["@bb"]:] if c[1])
+        if not extra or not (isinstance(v, tuple) and v) or v[0] in ("lv", "listof", "dictof"):
+            return v
+        return ("when", extra, v)
 
     # ------------------------------------------------------------------- loops
     def _iter_elem(self, it, env, fi):
@@ -675,7 +691,9 @@ class Interp:
                 out = phi(*outs)
             if k in pre:
                 lv = ("lv", k, lid)
-                env[k] = self._summarise(pre[k], out, lv, k)
+                start = body_env.get("@loopconds", 0)
+                ends_info = [(tuple(e.get("@conds", [])[start:]), e.get(k, BOT)) for e in ends]
+                env[k] = self._summarise(pre[k], out, lv, k, ends_info)
             else:
                 old = env.get(k, BOT)
                 if isinstance(out, tuple) and out and out[0] in ("listof", "dictof") \
@@ -691,7 +709,29 @@ class Interp:
         if not env.get("@absloop"):
             env.pop("@absloop", None)
 
-    def _summarise(self, pre, out, lv, name):
+    @staticmethod
+    def _by_exclusion(conds):
+        """`startswith(x, (A, B, C))` holds, `startswith(x, A)` and
+        `startswith(x, B)` do not: the item was selected as `startswith(x, C)`.
+        Returns that condition, or None when the conditions do not single out
+        one prefix."""
+        for c, truth in conds:
+            if not (truth and isinstance(c, tuple) and len(c) == 4 and c[0] == "call"
+                    and c[1] == "startswith" and isinstance(c[3], tuple)
+                    and c[3] and c[3][0] == "tuple"):
+                continue
+            left = [p for p in c[3][1:]]
+            if not all(isinstance(p, tuple) and p and p[0] == "const" for p in left):
+                continue
+            for d, t2 in conds:
+                if not t2 and isinstance(d, tuple) and len(d) == 4 and d[0] == "call" \
+                        and d[1] == "startswith" and d[2] == c[2] and d[3] in left:
+                    left.remove(d[3])
+            if len(left) == 1:
+                return (("call", "startswith", c[2], left[0]), True)
+        return None
+
+    def _summarise(self, pre, out, lv, name, ends_info=None):
         """Loop-carried scalar: recognise accumulation."""
         has = lambda t: contains(t, lambda x: x == lv)  # noqa: E731
         if not has(out):
@@ -720,10 +760,24 @@ class Interp:
                 elif isinstance(t, tuple) and t and t[0] == "phi":
                     for x in t[1:]:
                         walk(x, conds)
+                elif isinstance(t, tuple) and t and t[0] == "when" and not has(t[2]):
+                    walk(t[2], conds + tuple(t[1]))
                 elif t != lv:
                     pos = tuple(c for c in conds if c[1])
+                    if not pos and path:
+                        # selected by exclusion: the path to this end says which
+                        # items are looked at, the failed tests which remain
+                        d = self._by_exclusion(tuple(path) + conds)
+                        if d is not None:
+                            pos = (d,)
                     sel.append(("when", pos, t) if pos else t)
-            walk(out, ())
+            path = ()
+            if ends_info and any(c for c, _ in ends_info):
+                for path, v in ends_info:
+                    walk(v, ())
+                path = ()
+            else:
+                walk(out, ())
             return phi(pre, *sel)
         return ("loopdep", name, subst(out, lv, ("prev", name)), pre)
 
@@ -789,6 +843,13 @@ class Interp:
             return
         if isinstance(t, (ast.Tuple, ast.List)):
             n = len(t.elts)
+            stars = [i for i, e in enumerate(t.elts) if isinstance(e, ast.Starred)]
+            if len(stars) == 1:
+                vs = self._unpack_star(v, n, stars[0], env, fi)
+                if vs is not None:
+                    for e, x in zip(t.elts, vs):
+                        self.assign(e.value if isinstance(e, ast.Starred) else e, x, env, fi)
+                    return
             vs = self._unpack(v, n, env, fi)
             for e, x in zip(t.elts, vs):
                 if isinstance(e, ast.Starred):
@@ -828,6 +889,48 @@ class Interp:
                 "collections.defaultdict", "defaultdict"):
             return ("dictof", key, v)
         return ("dictof", key, v)
+
+    def _unpack_star(self, v, n, s, env, fi):
+        """`a, b, *rest, z = v` with the star at position s of n targets: the
+        values per target (the starred one a list term), when every alternative
+        of v has a known length; None otherwise."""
+        after = n - 1 - s
+        k = v[0] if isinstance(v, tuple) and v else None
+        if k in ("tuple", "list") or k == "nt":
+            items = list(v[1:]) if k != "nt" else list(v[3])
+            if len(items) < n - 1 or any(isinstance(x, tuple) and x and x[0] == "starred"
+                                         for x in items):
+                return None
+            mid = items[s:len(items) - after]
+            return items[:s] + [("list",) + tuple(mid)] + items[len(items) - after:]
+        if k in ("phi", "gphi"):
+            alts = v[1:] if k == "phi" else v[2:]
+            cols = [self._unpack_star(x, n, s, env, fi) for x in alts]
+            if any(c is None for c in cols) or len({len(c[s]) for c in cols}) != 1:
+                return None
+            out = []
+            for i in range(n):
+                if i == s:
+                    w = len(cols[0][s]) - 1
+                    out.append(("list",) + tuple(
+                        self._join2(k, v, [c[s][1 + j] for c in cols]) for j in range(w)))
+                else:
+                    out.append(self._join2(k, v, [c[i] for c in cols]))
+            return out
+        if k == "when":
+            r = self._unpack_star(v[2], n, s, env, fi)
+            return None if r is None else [
+                ("list",) + tuple(("when", v[1], y) for y in x[1:]) if i == s
+                else ("when", v[1], x) for i, x in enumerate(r)]
+        return None
+
+    @staticmethod
+    def _join2(k, v, xs):
+        if all(x == xs[0] for x in xs):
+            return xs[0]
+        if k == "gphi":
+            return ("gphi", v[1], xs[0], xs[1])
+        return phi(*xs)
 
     def _unpack(self, v, n, env, fi):
         k = v[0] if isinstance(v, tuple) and v else None
